@@ -1,22 +1,27 @@
 #!/bin/sh
 # tools/seeded_matrix.sh [names...]   (default: every directory under seeded/)
-# For each seeded change: apply it to /repo, run the quick check of the property it breaks, undo it straight
-# afterwards; writes one line per change to seeded/RESULTS.tsv (name, property, exit, seconds, first signature).
-# Evidence and violation files of these runs go to a scratch directory, never to /verif/evidence.
+# For each seeded change: apply it to a scratch git worktree of /repo's HEAD (outside /repo and /verif), run the quick
+# check of the property it breaks against that copy (VERIF_REPO), undo it; one line per change goes to
+# seeded/RESULTS-<tier>.tsv (name, property, exit, seconds, first signature). /repo itself is never touched, and the
+# evidence / violation files of these runs go to a scratch directory, never to /verif/evidence.
+# PROP=<id> runs another property's check instead (cross-catching); OUT=<file> redirects the result lines.
 cd /verif || exit 2
-if ! git -C /repo diff --quiet; then echo "/repo is dirty; refusing"; exit 2; fi
 SCR=$(mktemp -d /dev/shm/verif-matrix-XXXXXX)
-trap 'git -C /repo checkout -- . ; rm -rf "$SCR"' EXIT INT TERM
+COPY=$SCR/repo
+git -C /repo worktree add -q --detach "$COPY" HEAD || exit 2
+trap 'git -C /repo worktree remove --force "$COPY" >/dev/null 2>&1; rm -rf "$SCR"; git -C /repo worktree prune' EXIT INT TERM
+where=$(VERIF_REPO=$COPY PYTHONPATH=$COPY:/verif /venv/bin/python -c "import twosigma.memento as m; print(m.__file__)")
+case "$where" in "$COPY"/*) ;; *) echo "copy is not what gets imported: $where"; exit 2;; esac
 NAMES=${*:-$(ls seeded | grep -v RESULTS)}
 TIER=${TIER:-quick}
 for n in $NAMES; do
   [ -f seeded/$n/patch.diff ] || continue
   [ -n "$PROP" ] && prop=$PROP || prop=$(python3 -c "import json,sys;print(json.load(open('seeded/$n/meta.json')).get('property','${n%%-*}'))")
-  git -C /repo apply /verif/seeded/$n/patch.diff || { echo "$n	$prop	PATCH-DOES-NOT-APPLY"; continue; }
+  git -C "$COPY" apply /verif/seeded/$n/patch.diff || { printf '%s\t%s\tPATCH-DOES-NOT-APPLY\n' "$n" "$prop"; continue; }
   s=$(date +%s)
-  out=$(VERIF_EVIDENCE_DIR=$SCR/ev VERIF_OUT_DIR=$SCR/out ./check $prop --tier $TIER 2>&1); rc=$?
+  out=$(VERIF_REPO=$COPY VERIF_EVIDENCE_DIR=$SCR/ev VERIF_OUT_DIR=$SCR/out ./check $prop --tier $TIER 2>&1); rc=$?
   e=$(date +%s)
-  git -C /repo checkout -- .
+  git -C "$COPY" checkout -q -- .
   sig=$(echo "$out" | grep -m1 "signature:" | cut -c1-160)
   printf '%s\t%s\t%s\t%ss\t%s\n' "$n" "$prop" "$rc" "$((e-s))" "$sig"
 done | tee ${OUT:-seeded/RESULTS-$TIER.tsv}
